@@ -59,7 +59,7 @@ def run(ctx):
         ndarray.account(ctx, st, s)
         ndarray.report_fails(ctx, s, "C01")
     run_traces(ctx, C01_EVENTS, "C01", 150 if ctx.quick else 2500, 40)
-    ctx.notes["exhaustive"] = "within the bounds of each BFS configuration (see configs); simulation and traces are samples"
+    ctx.notes["exhaustive_note"] = "within the bounds of each BFS configuration (see configs); simulation and traces are samples"
     ctx.assumptions += ["test values are small non-negative integers (exact in all 8 element types)",
                         "behaviours beyond the stated bounds are covered only by random simulation/traces"]
     return ctx.finish("model_checking")
